@@ -3292,6 +3292,11 @@ static Type check_statement_impl(TypeChecker *tc, ASTNode *stmt) {
 
             Type value_type = check_expression(stmt->as.set.value, tc->env);
 
+            /* check_expression() can define symbols (match arm bindings) and thereby realloc the symbol
+             * table: the pointer looked up above may be stale now, look the variable up again */
+            sym = env_get_var_visible_at(tc->env, stmt->as.set.name, stmt->line, stmt->column);
+            if (!sym) return TYPE_VOID;
+
             /* Propagate element type to array literals for correct transpilation */
             if (sym->type == TYPE_ARRAY && sym->element_type != TYPE_UNKNOWN) {
                 if (stmt->as.set.value->type == AST_ARRAY_LITERAL) {
